@@ -169,7 +169,6 @@ JudgeStepRv(ev, st) ==
     IF off \notin StartsOf(st.image)
       THEN (IF ev.panic # "" THEN Fail("panic", "no panic", ev.panic, [NoState EXCEPT !.run1 = st.run1])
             ELSE IF ev.err THEN Pass(st) ELSE Fail("noerror", "step fails outside decoded instructions", ev.rep, st))
-    ELSE IF ev.err THEN Fail("steperror", "step succeeds at a decoded instruction", "error", st)
     ELSE Let1(AskProblem(ev, st), LAMBDA ap :
       Let1(WithAnswers(ev, st), LAMBDA s1 :
       Let1(WBits(WordAt(st.image, OrigOff(st, off))), LAMBDA wb :
@@ -184,6 +183,7 @@ JudgeStepRv(ev, st) ==
                Len(Strip(Add(MemReadOf(name, wb, m, W(st))[q].a, FromNat(MemReadOf(name, wb, m, W(st))[q].n, 1), 9))) > 8)
       THEN Pass([NoState EXCEPT !.run1 = st.run1])       \* the access wraps around the address space: outside the property
       ELSE IF ev.panic # "" THEN Fail("panic", "no panic", ev.panic, [NoState EXCEPT !.run1 = st.run1])
+      ELSE IF ev.err THEN Fail("steperror", "step succeeds at a decoded instruction", "error", st)
       ELSE
       Let1([s1 EXCEPT
               !.regs = RSet(IF r.csrw /\ ev.csrkey # "" THEN RSet(IF r.rd # 0 THEN RSet(s1.regs, XName(r.rd), r.rdv) ELSE s1.regs,
